@@ -55,6 +55,29 @@ def gen(tier, seed):
                          "refine_nodes": fsl(rnd.sample(mids, min(len(mids), 2)) + ([ksV[1]] if len(ksV) > 2 and V.count(ksV[1]) <= q else [])),
                          "elevate": rnd.choice((0, 0, 1, 2))})
         cases.append(case)
+    # same degree, same number of control points, same breakpoints - the multiplicities distributed differently: the two
+    # spaces differ although every cheap comparison says they agree
+    for i in range(10 if tier == "quick" else 120):
+        p = rnd.randint(1, 3)
+        kind = rnd.choice(("uniform", "nonuniform"))
+        a, pool, b = (F(0), [F(1, 4), F(1, 2), F(3, 4)], F(1)) if kind == "uniform" else (F(-3, 2), [F(-1, 4), F(0), F(2, 7)], F(7, 2))
+        m = rnd.randint(2, 3)
+        ks = sorted(rnd.sample(pool, m))
+        while True:
+            ma = [rnd.randint(1, p + 1) for _ in ks]
+            mb = ma[::-1] if rnd.random() < 0.5 else rnd.sample(ma, len(ma))
+            if ma != mb:
+                break
+            if p == 0 or len(set(ma)) == 1 and rnd.random() < 0.5:
+                ma[0] = ma[0] % (p + 1) + 1
+        U = [a] * (p + 1) + sum(([k] * mu for k, mu in zip(ks, ma)), []) + [b] * (p + 1)
+        V = [a] * (p + 1) + sum(([k] * mu for k, mu in zip(ks, mb)), []) + [b] * (p + 1)
+        if npts_of(U, p) > 8:
+            continue
+        dim = rnd.choice((1, 2))
+        cases.append({"kind": kind + "-permuted-mults", "mode": "generic", "V": fsl(V), "q": p,
+                      "nodes": rnd.choice((None, None, fsl([a, b]))) if p >= 1 else None, "scalar": dim == 1, "shared": m,
+                      "U": fsl(U), "p": p, "P": pts_json(rand_points(rnd, npts_of(U, p), dim))})
     return cases
 
 
